@@ -1,0 +1,17 @@
+//go:build verif
+
+package denco
+
+// Contract file: comments only, parsed by /verif/cmd/govc (see /verif/DESIGN.md §2.2).
+// It contains no executable code; without the build tag it is not even compiled.
+
+// (*Router).Lookup — frame and shape used by the callers in package middleware.
+// (trusted until the trie lookup itself is under contract, see DESIGN.md C05)
+//@ func (*Router).Lookup
+//@ trusted
+//@ ensures !found ==> data == nil && len(params) == 0
+//@ assigns \nothing
+
+//@ func NewRecord
+//@ ensures result.Key == key && result.Value == value
+//@ assigns \nothing
